@@ -189,6 +189,29 @@ theorem too_small_rejected (S : SE B DM) (L : Laws S) (max fuel : Nat) (data : B
   unfold encrypt
   rw [(L.enc_none_iff_small data).2 hsmall]
 
+/-- The same on every client entry point that takes bytes to self-encryption (private put, public put, cost
+estimate): each hands the caller's bytes to `encrypt` as they are (flags regenerated from the source), so an input
+below the minimum is an error there too — it is never padded or otherwise turned into something encryptable. -/
+theorem too_small_rejected_on_every_entry_point (S : SE B DM) (L : Laws S) (max fuel : Nat) (pre : B → B) (data : B)
+    (hsmall : S.len data < 3) (e : Entry) :
+    putEntry S max fuel pre e data = .error .selfEncryption := by
+  have hpass : e.passesBytesUnchanged = true := by cases e <;> rfl
+  unfold putEntry
+  rw [hpass]
+  exact too_small_rejected S L max fuel data hsmall
+
+/-- and what an entry point accepts is exactly what `encrypt` makes of the caller's own bytes, hence reads back as
+them (`fetch_pack_roundtrip`). -/
+theorem entry_roundtrip (S : SE B DM) (L : Laws S) (max fuel : Nat) (pre : B → B) (data : B) (e : Entry)
+    (dataMapChunk : Chunk B) (chunks : List (Chunk B))
+    (h : putEntry S max fuel pre e data = .ok (dataMapChunk, chunks)) :
+    ∀ fuel', fuel + 1 ≤ fuel' → ∀ codes : List (List Nat),
+      fetchFromDataMapChunk S (storeGet chunks) fuel' codes dataMapChunk.value = .ok data := by
+  have hpass : e.passesBytesUnchanged = true := by cases e <;> rfl
+  unfold putEntry at h
+  rw [hpass] at h
+  exact fetch_pack_roundtrip S L max fuel data dataMapChunk chunks h
+
 /-- …and only those are rejected at the first level. -/
 theorem large_enough_encrypted (S : SE B DM) (L : Laws S) (data : B) (hlarge : 3 ≤ S.len data) :
     ∃ dm cs, S.enc data = some (dm, cs) := by
@@ -281,5 +304,7 @@ end SafeNet.Props.C14
 #print axioms SafeNet.Props.C14.chunks_content_addressed
 #print axioms SafeNet.Props.C14.encrypt_deterministic
 #print axioms SafeNet.Props.C14.too_small_rejected
+#print axioms SafeNet.Props.C14.too_small_rejected_on_every_entry_point
+#print axioms SafeNet.Props.C14.entry_roundtrip
 #print axioms SafeNet.Props.C14.large_enough_encrypted
 #print axioms SafeNet.Props.C14.toy_laws
